@@ -380,6 +380,211 @@ def suffstats_regimes(R, rng, n):
         R.violation("PiecewiseConstantCoalescentGrid.sufficient_statistics:grad-mode:differs", f"results differ between grad modes: {res}", case, n)
 
 
+# ----------------------------------------------------------------------------- smooth fields far from zero
+def _exact_S(xs, ws):
+    d = [(F(a) - F(b)) ** 2 for a, b in zip(xs, xs[1:])]
+    return sum(d) if ws is None else sum(q / F(w) for q, w in zip(d, ws))
+
+
+def smooth_fields(R, rng, n, mode, given=None):
+    """the density depends on the field only through its first differences: a smooth field far from zero (level >>
+    increment: log population sizes near 10 moving by 1e-2 in float32, level/increment 1e7 … 1e10 in float64) must be as
+    accurate as one scattered around zero. Reference: the weighted sum of squared differences in exact rational arithmetic
+    on the very numbers held by the tensors (so the tolerance is the rounding of a SUM OF SQUARES in that dtype, a few
+    n·eps — never eps·level²); for dyadic weights also the exact quadratic form of the published precision matrix.
+    Plain, weighted, time-aware (rescaled or not); GMRF and GMRFGammaIntegrated; single and batched."""
+    import torch
+    from torchtree import Parameter
+    from torchtree.distributions.gmrf import GMRF
+    from torchtree.distributions.gmrf_integrated import GMRFGammaIntegrated
+
+    ck = R.ck
+    regimes = [("float32", 10.0, 2.0 ** -6, 2.0 ** 12), ("float32", 12.0, 2.0 ** -7, 2.0 ** 13), ("float64", 1e7, 1.0, 1.0),
+               ("float64", 1e10, 1.0, 2.0 ** -3), ("float64", 3e7, 2.0 ** -10, 2.0 ** 16)]
+    if given is not None:
+        regimes = [tuple(given["regime"])]
+    for dtn, level, incr, tau in regimes:
+        dt = getattr(torch, dtn)
+        if given is None:
+            base = make_gmrf_case(rng, n, mode)
+            steps = [rng.choice([-1, 1]) * rng.randint(1, 16) / 8.0 * incr for _ in range(n - 1)]
+            xs = [level + rng.randint(-8, 8) / 8.0]
+            for st in steps:
+                xs.append(xs[-1] + st)
+            case = {"what": "smooth-field", "mode": mode, "regime": [dtn, level, incr, tau], "field_values": [float(x).hex() for x in xs], "tau": F(tau)}
+            for k in ("weights", "samp", "coal"):
+                if k in base:
+                    case[k] = base[k]
+        else:
+            case = given
+            xs = [float.fromhex(h) for h in case["field_values"]]
+        field = torch.tensor(xs, dtype=torch.float64).to(dt)
+        held = [float(v) for v in field.tolist()]  # the numbers the tensor holds
+        if mode == "W":
+            wt = T(case["weights"]).to(dt)
+            ws = [float(v) for v in wt.tolist()]
+        elif mode == "P":
+            wt, ws = None, None
+        else:
+            wt = None
+            hs = sorted([F(0)] + list(case["coal"]))
+            dur = [b - a for a, b in zip(hs, hs[1:])]
+            ws = [(a + b) / 2 for a, b in zip(dur, dur[1:])]
+            if mode == "T1":
+                ws = [w / hs[-1] for w in ws]
+        tree = None
+        if mode in ("T0", "T1"):
+            tree = SimpleNamespace(node_heights=T(list(case["samp"]) + list(case["coal"])).to(dt), taxa_count=len(case["samp"]))
+        S = _exact_S(held, ws)
+        d = n - 1
+        want = d / 2 * math.log(tau) - tau * float(S) / 2 - d / 2 * LOG2PI
+        scale = abs(d / 2 * math.log(tau)) + tau * float(S) / 2 + d
+        tol = 1e-10 if dtn == "float64" else 2e-5
+        ck.case(key=("smooth", mode, dtn, level, incr, n, tuple(case["field_values"])), bucket=f"smooth-field/{mode}/{dtn}/level={level:g}/incr={incr:g}")
+        for batched in (False, True):
+            try:
+                f = field if not batched else torch.stack([field, field.flip(-1)])
+                g = GMRF("g", Parameter("field", f.clone()), Parameter("precision", torch.tensor([tau], dtype=dt)), tree, wt, mode == "T1")
+                out = g()
+                vals = [float(v) for v in out.reshape(-1).tolist()]
+                Q = g.precision_matrix()
+                gi = GMRFGammaIntegrated("gi", Parameter("field", f.clone()), 1.375, 1.25, tree, wt, mode == "T1")
+                vi = [float(v) for v in gi().reshape(-1).tolist()]
+            except Exception as e:
+                R.violation(f"GMRF.smooth-field:{mode}:raises", f"GMRF ({mode}, {dtn}{', batched' if batched else ''}) raises on a smooth field at level {level:g}: "
+                            f"{type(e).__name__}: {str(e)[:120]}", case, n)
+                break
+            # the reversed field has the same differences when the weights are symmetric only: row 0 is the one checked
+            if not close(vals[0], want, tol, scale):
+                R.violation(f"GMRF.smooth-field:{mode}:{dtn}",
+                            f"GMRF ({mode}, {dtn}{', batched' if batched else ''}, length {n}) on a field at level {level:g} moving by {incr:g}: log density {vals[0]!r}; "
+                            f"exact weighted sum of squared differences gives {want!r}", case, n, {"impl": vals[0], "exact": want})
+            a, b = 1.375, 1.25
+            wi = -d / 2 * LOG2PI + a * math.log(b) - math.lgamma(a) + math.lgamma(a + d / 2) - (a + d / 2) * math.log(float(S) / 2 + b)
+            si = abs(a * math.log(b)) + abs(math.lgamma(a + d / 2)) + abs((a + d / 2) * math.log(float(S) / 2 + b)) + d
+            if not close(vi[0], wi, tol, si):
+                R.violation(f"GMRFGammaIntegrated.smooth-field:{mode}:{dtn}",
+                            f"GMRFGammaIntegrated ({mode}, {dtn}, length {n}) on a field at level {level:g} moving by {incr:g}: {vi[0]!r}; closed form on the exact sum of squares {wi!r}",
+                            case, n, {"impl": vi[0], "exact": wi})
+            if mode in ("P", "W") and not batched:
+                # dyadic weights and precision: the published matrix is exact, its quadratic form is the same rational number
+                Ql = Q.tolist()
+                quad = sum(F(held[i]) * F(Ql[i][j]) * F(held[j]) for i in range(n) for j in range(n) if Ql[i][j] != 0.0)
+                if quad != F(tau) * S:
+                    R.ck.bucket("smooth-field/published-matrix-not-exact")
+                    if not close(float(quad), tau * float(S), 1e-3, tau * float(S)):
+                        R.violation(f"GMRF.smooth-field:{mode}:matrix", f"GMRF ({mode}, {dtn}): quadratic form of the published matrix {float(quad)!r}, tau x sum of squared "
+                                    f"differences {tau * float(S)!r}", case, n)
+
+
+# ----------------------------------------------------------------------------- real tree model objects of every kind
+REAL_TREES = ("time", "flexible", "ratios", "shifts")
+
+
+def build_real_tree(kind, newick, samp, params):
+    """a REAL tree model of the kind; -> (tree, dict of its parameter handles)"""
+    from torchtree.evolution.tree_model import ReparameterizedTimeTreeModel, TimeTreeModel
+    from torchtree.evolution.tree_model_flexible import FlexibleTimeTreeModel
+
+    taxa = {f"T{i}": float(s) for i, s in enumerate(samp)}
+    dic = {}
+    m = len(samp) - 1
+    if kind in ("time", "flexible"):
+        cls = TimeTreeModel if kind == "time" else FlexibleTimeTreeModel
+        js = cls.json_factory("tree", newick, [0.0] * m, taxa, keep_branch_lengths=True, internal_heights_id="internal_heights")
+        js["internal_heights"]["dtype"] = "torch.float64"
+        tree = cls.from_json(js, dic)
+        return tree, {"internal_heights": dic["internal_heights"]}
+    if kind == "ratios":
+        ratios = {"id": "ratios", "type": "Parameter", "dtype": "torch.float64", "tensor": list(params["ratios"])}
+        root = {"id": "root_height", "type": "Parameter", "dtype": "torch.float64", "tensor": [float(max(samp)) + params["root_extra"]]}
+        js = ReparameterizedTimeTreeModel.json_factory("tree", newick, taxa, ratios=ratios, root_height=root)
+        tree = ReparameterizedTimeTreeModel.from_json(js, dic)
+        return tree, {k: dic[k] for k in ("ratios", "root_height") if k in dic}
+    shifts = {"id": "shifts", "type": "Parameter", "dtype": "torch.float64", "tensor": list(params["shifts"])}
+    js = ReparameterizedTimeTreeModel.json_factory("tree", newick, taxa, shifts=shifts)
+    tree = ReparameterizedTimeTreeModel.from_json(js, dic)
+    return tree, {"shifts": dic["shifts"]}
+
+
+def real_trees(R, rng, n, tree_kind, given=None):
+    """the time-aware priors on REAL tree model objects of every kind (TimeTreeModel on heights, FlexibleTimeTreeModel,
+    ReparameterizedTimeTreeModel on ratios/root height and on shifts), before and after an update of the tree's own
+    parameter: GMRF and GMRFGammaIntegrated (rescaled or not) against the closed forms on the heights the tree reports
+    (`node_heights`), and against the same prior on a plain TimeTreeModel that is handed those heights directly"""
+    import torch
+    from torchtree import Parameter
+    from torchtree.distributions.gmrf import GMRF
+    from torchtree.distributions.gmrf_integrated import GMRFGammaIntegrated
+    from torchtree.evolution.tree_model import TimeTreeModel
+
+    ck = R.ck
+    if given is None:
+        base = make_gmrf_case(rng, n, "T0")
+        m = len(base["samp"]) - 1
+        case = {"what": "real-tree", "mode": "T0", "tree": tree_kind, "field": base["field"], "tau": base["tau"], "samp": base["samp"], "coal": base["coal"],
+                "newick": base["newick"],
+                "params": {"ratios": [rng.uniform(0.1, 0.9) for _ in range(max(m - 1, 0))], "root_extra": rng.uniform(0.5, 3.0),
+                           "shifts": [rng.uniform(0.1, 2.0) for _ in range(m)],
+                           "ratios2": [rng.uniform(0.1, 0.9) for _ in range(max(m - 1, 0))], "shifts2": [rng.uniform(0.1, 2.0) for _ in range(m)],
+                           "scale2": rng.uniform(1.0, 2.0)}}
+    else:
+        case = given
+        tree_kind = case["tree"]
+    n = len(case["field"])
+    samp = case["samp"]
+    taxa = {f"T{i}": float(s) for i, s in enumerate(samp)}
+    a, b = 1.375, 1.25
+    tree, handles = build_real_tree(tree_kind, case["newick"], samp, case["params"])
+    field = Parameter("field", T(case["field"]))
+    prec = Parameter("precision", T([case["tau"]]))
+    objs = {}
+    for rescale in (False, True):
+        objs[("GMRF", rescale)] = GMRF("g", field, prec, tree, None, rescale)
+        objs[("GMRFGammaIntegrated", rescale)] = GMRFGammaIntegrated("gi", field, a, b, tree, None, rescale)
+    for step in ("initial", "updated"):
+        if step == "updated":
+            pr = case["params"]
+            if "ratios" in handles:
+                handles["ratios"].tensor = T(pr["ratios2"])
+            elif "shifts" in handles:
+                handles["shifts"].tensor = T(pr["shifts2"])
+            elif "internal_heights" in handles:
+                h = handles["internal_heights"]
+                h.tensor = h.tensor.detach() * pr["scale2"] + 0.25
+            else:
+                handles["root_height"].tensor = handles["root_height"].tensor.detach() * pr["scale2"]
+        nh = [float(v) for v in tree.node_heights.detach().reshape(-1).tolist()]
+        internal = nh[len(samp):]
+        plain_js = TimeTreeModel.json_factory("plain", case["newick"], internal, taxa)
+        plain_js["internal_heights"]["dtype"] = "torch.float64"
+        plain = TimeTreeModel.from_json(plain_js, {})
+        same_heights = [float(v) for v in plain.node_heights.reshape(-1).tolist()] == nh
+        for (cls, rescale), obj in objs.items():
+            mode = "T1" if rescale else "T0"
+            ref_case = {"mode": mode, "field": case["field"], "tau": case["tau"], "coal": internal, "shape": a, "rate": b}
+            want = gmrf_ref(ref_case) if cls == "GMRF" else gint_ref(ref_case)
+            ck.case(key=("real-tree", tree_kind, cls, mode, step, n, tuple(case["field"]), tuple(internal)), bucket=f"real-tree/{tree_kind}/{cls}/{mode}/{step}")
+            try:
+                v = _scalar(obj())
+                if cls == "GMRF":
+                    direct = GMRF("d", field, prec, plain, None, rescale)
+                else:
+                    direct = GMRFGammaIntegrated("d", field, a, b, plain, None, rescale)
+                vd = _scalar(direct())
+            except Exception as e:
+                R.violation(f"{cls}.real-tree:{tree_kind}:raises", f"{cls} ({mode}) on a {tree_kind} tree model raises ({step}): {type(e).__name__}: {str(e)[:120]}", case, n)
+                continue
+            if v is None or not close(v, want, 1e-10, abs(want)):
+                R.violation(f"{cls}.real-tree:{tree_kind}:value",
+                            f"{cls} ({mode}) on a real {tree_kind} tree model ({step}, field length {n}) = {v!r}; the closed form on the heights the tree reports gives {want!r}",
+                            case, n, {"impl": v, "closed_form": want, "step": step})
+            elif same_heights and (vd is None or not close(v, vd, 1e-12, abs(v))):
+                R.violation(f"{cls}.real-tree:{tree_kind}:direct",
+                            f"{cls} ({mode}) on a real {tree_kind} tree model = {v!r}; the same prior on a TimeTreeModel handed the same heights directly = {vd!r}",
+                            case, n, {"impl": v, "direct": vd, "step": step})
+
+
 def json_key(v):
     return repr(v)
 
@@ -501,6 +706,12 @@ def run(R, rng, ck):
         for mode in ("P", "W", "T0", "T1"):
             R.guard("gmrf_regimes", gmrf_regimes, R, rng, n, mode)
         R.guard("suffstats_regimes", suffstats_regimes, R, rng, max(n, 2))
+    for n in ([2, 5, 12, 50] if not ck.thorough() else [2, 3, 5, 8, 12, 30, 50, 200, 400]):
+        for mode in ("P", "W", "T0", "T1"):
+            R.guard("smooth_fields", smooth_fields, R, rng, n, mode)
+    for n in ([2, 3, 5, 9] if not ck.thorough() else [2, 3, 4, 5, 7, 9, 14, 25]):
+        for tk in REAL_TREES:
+            R.guard("real_trees", real_trees, R, rng, n, tk)
     for mode in ("P", "W", "T0", "T1"):
         R.guard("gmrf_batches", gmrf_batches, R, rng, mode)
     R.guard("gmrf_special_and_failures", gmrf_special_and_failures, R, rng)
